@@ -436,12 +436,18 @@ func (p retryParams) scenarios(rng *rand.Rand) []scen.Scenario {
 			{sub(ss("u/st", 1)), pub(1, "s4")},
 			{unsub("u/none"), pub(2, "s5")},
 		}
-		for _, at := range []string{"connopt", "dialer"} {
+		for _, at := range []string{"connopt", "dialer", "active", "onerror"} {
 			for conn := 1; conn <= 2; conn++ {
 				for _, st := range steerSets {
 					for _, cut := range []int{0, 2, 3} {
 						var f []scen.Fault
 						if conn == 2 && cut == 0 && !w.hasCut() {
+							continue
+						}
+						if at == "onerror" && (cut == 0 || conn == 2) {
+							continue // OnError needs a failing request; only its first call is steered
+						}
+						if at == "active" && conn == 2 && cut == 0 {
 							continue
 						}
 						if cut > 0 {
